@@ -69,7 +69,7 @@ ImplRefusal(needed) ==
 
 CallAdd(i, o) ==
   /\ pc = Idle
-  /\ AddCall(Bufs(i, o))
+  /\ AddCall(Bufs(i, o), "d")
   /\ LET needed == i + o
          r == ImplRefusal(needed) IN
      pc' = IF r # "none" THEN [at |-> "add_ret_err", err |-> r]
@@ -180,7 +180,7 @@ BugRetStep ==   \* return without the property-level bookkeeping being checkable
   /\ pc.at = "bug_ret"
   /\ LET p == Parse(pc.head) IN
      held' = (pc.head :> [descs |-> p.descs, elems |-> SubmissionElems, bufs |-> op.bufs,
-                          pas |-> { op.shares[pos].pa : pos \in DOMAIN op.shares }]) @@ held
+                          outdg |-> "d", pas |-> { op.shares[pos].pa : pos \in DOMAIN op.shares }]) @@ held
   /\ op' = NoOp
   /\ pc' = Idle
   /\ UNCHANGED <<cfg, availIdx, lastUsed, lastChecked, dmemVars, vmemVars, shared, devVars,
@@ -208,7 +208,7 @@ CallPop(token) ==
                     origFree |-> freeHead, next |-> token, paddr |-> ZeroAddr,
                     len |-> UsedAt(lastUsed % QN).len]
      /\ freeHead' = IF o = "Ok" THEN token ELSE freeHead
-  /\ PopCall(token)
+  /\ PopCall(token, "d")
   /\ UNCHANGED <<shadow, numUsed, tables, devPend>>
 
 PopRetErrStep ==
@@ -269,7 +269,7 @@ PEvent ==      \* last_used_idx += 1; used_event store if negotiated
 
 PopRetStep ==
   /\ pc.at = "pop_ret"
-  /\ PopRetOk(pc.len)
+  /\ PopRetOk(pc.len, "d")
   /\ pc' = Idle
   /\ UNCHANGED <<freeHead, shadow, numUsed, tables, devPend>>
 
@@ -326,7 +326,7 @@ DevStep ==
           /\ devPend' = id
      /\ UNCHANGED <<freeHead, shadow, numUsed, tables, pc>>
   \/ /\ devPend # -1
-     /\ DevUsedIdx(Inc(usedIdx), devPend)
+     /\ DevUsedIdx(Inc(usedIdx), devPend, "d")
      /\ devPend' = -1
      /\ UNCHANGED <<freeHead, shadow, numUsed, tables, pc>>
   \/ /\ WithNotify /\ QEventIdx
@@ -371,6 +371,6 @@ View == <<cfg, availIdx, lastUsed, lastChecked, held, op,
           [s \in { k % QN : k \in Window(devNext, idxMem) } |-> RingAt(s)],
           idxMem, availFlags, usedEvent,
           [s \in { k % QN : k \in Window(lastUsed, usedIdx) } \cup (IF devPend = -1 THEN {} ELSE {usedIdx % QN}) |-> UsedAt(s)],
-          usedIdx, usedFlags, availEvent, shared, devNext, devHeld,
+          usedIdx, usedFlags, availEvent, shared, devNext, devHeld, wrote,
           freeHead, shadow, numUsed, tables, pc, devPend>>
 =============================================================================
